@@ -1,8 +1,8 @@
 --------------------------- MODULE VbftSelectMC ---------------------------
 (* Scaled layouts for the exhaustive check of VbftSelect: 2-byte seed, 16 slots = 4 + 6 + 6. *)
 EXTENDS VbftSelect
-TablesQ == {<<1, 2, 3, 4>>, <<1, 2, 3, 4, 4, 3, 2, 1>>, <<1, 2, 3, 4, 5>>, <<1, 2, 3, 4, 5, 6, 7>>}
-TablesT == TablesQ \cup {<<1, 1, 2, 2, 3, 3, 4, 4>>, <<1, 2, 3, 4, 5, 6>>, <<1, 2, 3, 1, 2, 3>>, <<3, 1, 4, 1, 5, 2, 6>>,
+TablesQ == {<<1, 2, 3, 4>>, <<1, 2, 3, 4, 5, 6, 7>>}
+TablesT == TablesQ \cup {<<1, 2, 3, 4, 4, 3, 2, 1>>, <<1, 2, 3, 4, 5>>, <<1, 1, 2, 2, 3, 3, 4, 4>>, <<1, 2, 3, 4, 5, 6>>, <<1, 2, 3, 1, 2, 3>>, <<3, 1, 4, 1, 5, 2, 6>>,
                         <<1, 2, 3, 4, 5, 1, 2>>, <<2, 1, 4, 3, 1, 2, 3, 4>>, <<1, 2, 3, 4, 5, 6, 7, 8>>}
 \* vacuity guard: on the first table some seeds yield a selection and some do not
 ASSUME \E a \in 0..255 : ~Build(<<a, 255 - a>>, <<1, 2, 3, 4>>, 4, 1).err
